@@ -1,5 +1,6 @@
 import Hgxv.Model.Wire
 import Hgxv.Model.C07
+import Hgxv.Model.C07Heap
 /-! Line protocol for C07.  Slots hold either a table state (`Tables κ`) or an abstract content (`Content κ`)
 of one of the four kinds `H D T M`.
 
@@ -22,6 +23,9 @@ argument is optional.  Keys of hyperedges: `Wire.natss?` (`H: 1,2,3`  `D: 1,2;3`
   deleattr <slot> <key> <field>   sethattr <slot> <field> <v>                             -> ok | rej
   cnew <slot> <kind> <0|1> <v>   cnode <slot> <n> <v>   cedge <slot> <key> <num> <v>      -> ok
   canon <slot>                                                                            -> tree
+  heap <cell|cell|..> <r,r,..>   metadata OBJECTS: cell = `a<v>` (atom / unshared subtree), `l<i,i>` / `l-` (list of
+                     addresses), `o<k:i,k:i>` / `o-` (dict of addresses), addresses = positions of older cells;
+                     answers the values and the `serialize` results of the objects at the addresses r   -> [v,..] [v,..]
 -/
 open Wire C07
 
@@ -271,7 +275,31 @@ def mkCon (st : St) (slot : Nat) (kind : String) (w : Bool) (hm : JTree) : St ×
   | "M" => (AL.set st slot (SlotOf.con (κ := KM) { nodes := [], edges := [], hmeta := hm, weighted := w }), "ok")
   | _ => (st, "bad-op")
 
+/-! ### heaps of metadata objects -/
+def field? (s : String) : Option (String × Nat) :=
+  match s.splitOn ":" with
+  | [k, i] => i.toNat?.map (fun i => (k, i))
+  | _ => none
+
+def cell? (s : String) : Option Cell :=
+  match s.toList with
+  | 'a' :: r => (tree? (String.ofList r)).map Cell.atom
+  | 'l' :: r => (nats? (String.ofList r)).map Cell.arr
+  | 'o' :: r =>
+    let body := String.ofList r
+    if body = "-" then some (.obj []) else ((body.splitOn ",").mapM field?).map Cell.obj
+  | _ => none
+
+def heapCmd (cells refs : String) : String :=
+  match (cells.splitOn "|").mapM cell?, nats? refs with
+  | some h, some rs =>
+    if Heap.closed h then
+      showTree (.arr (rs.map (look (values h)))) ++ " " ++ showTree (.arr (rs.map (look (serCells h))))
+    else "open-heap"
+  | _, _ => "bad-op"
+
 def stepLine (st : St) : List String → St × String
+  | ["heap", cells, refs] => (st, heapCmd cells refs)
   | ["new", slot, kind, w, hm] =>
     match slot.toNat?, tree? hm with
     | some s, some hm => mkNew st s kind (w == "1") hm
